@@ -173,6 +173,8 @@ struct Decoded {
   std::vector<float> vals;               // decoded floats, same value order, flat
 };
 
+// extra encoder options a caller may set before encode_decode (rarely used paths: raw, not entropy-coded integer values; no prediction)
+static bool g_enc_builtin_compression = true; static int g_enc_position_prediction = -1;
 // explicit: origin/range (nullptr -> automatic)
 static Decoded encode_decode(const Geo &g, int method, int speed, int q, const float *origin, float range) {
   Decoded d;
@@ -182,6 +184,8 @@ static Decoded encode_decode(const Geo &g, int method, int speed, int q, const f
   enc.SetSpeedOptions(speed, speed);
   if (origin) enc.SetAttributeExplicitQuantization(GeometryAttribute::POSITION, q, g.nc, origin, range);
   else enc.SetAttributeQuantization(GeometryAttribute::POSITION, q);
+  if (!g_enc_builtin_compression) enc.options().SetGlobalBool("use_built_in_attribute_compression", false);
+  if (g_enc_position_prediction != -1) enc.SetAttributePredictionScheme(GeometryAttribute::POSITION, g_enc_position_prediction);
   EncoderBuffer eb;
   Status st;
   switch (method) {
